@@ -3,6 +3,7 @@ package schema
 import (
 	"fmt"
 	"sort"
+	"sync/atomic"
 
 	"github.com/jsightapi/jsight-schema-go-library/bytes"
 	"github.com/jsightapi/jsight-schema-go-library/errors"
@@ -70,10 +71,18 @@ func (s *Schema) AddNamedType(name string, typ *Schema, rootFile *fs.File, begin
 
 // AddUnnamedType Adds an unnamed TYPE to the SCHEMA. Returns a unique name for the added TYPE.
 func (s *Schema) AddUnnamedType(typ *Schema, rootFile *fs.File, begin bytes.Index) string {
-	name := fmt.Sprintf("#%p", typ)
+	// The name is unique among all the schemas (the unnamed types of a user
+	// type are copied to the schemas which use it) and names sort in the order
+	// of creation. A name made of the address of the type sorted in the order
+	// of the addresses: which of two invalid types was reported first changed
+	// from run to run.
+	name := fmt.Sprintf("#%016x", atomic.AddUint64(&unnamedTypeSeq, 1))
 	s.addType(name, typ, rootFile, begin)
 	return name
 }
+
+// unnamedTypeSeq numbers the unnamed types.
+var unnamedTypeSeq uint64
 
 func (s *Schema) addType(name string, schema *Schema, rootFile *fs.File, begin bytes.Index) {
 	if _, ok := s.types[name]; ok {
